@@ -311,7 +311,16 @@ impl<A: Read + Write + io::Seek> ZipWriter<A> {
         }
 
         let files = (0..number_of_files)
-            .map(|_| central_header_to_zip_file(&mut readwriter, archive_offset))
+            .map(|_| {
+                central_header_to_zip_file(&mut readwriter, archive_offset).map(|mut file| {
+                    // The ZIP64 extended information record is regenerated from the sizes and the
+                    // offset when the central directory is rewritten. An inherited copy would follow
+                    // the new one, and readers apply it a second time whenever a real value equals
+                    // the 0xFFFFFFFF placeholder.
+                    file.extra_field = strip_zip64_extra_field(&file.extra_field);
+                    file
+                })
+            })
             .collect::<Result<Vec<_>, _>>()?;
 
         let _ = readwriter.seek(io::SeekFrom::Start(directory_start)); // seek directory_start to overwrite it
@@ -1116,6 +1125,26 @@ fn clamp_opt<T: Ord + Copy>(value: T, range: std::ops::RangeInclusive<T>) -> Opt
     } else {
         None
     }
+}
+
+/// Removes every ZIP64 extended information record (header ID 0x0001) from a sequence of extra
+/// field records. Bytes that do not form a complete record (a malformed tail) are kept as they are.
+fn strip_zip64_extra_field(extra: &[u8]) -> Vec<u8> {
+    let mut out = Vec::with_capacity(extra.len());
+    let mut rest = extra;
+    while rest.len() >= 4 {
+        let kind = u16::from_le_bytes([rest[0], rest[1]]);
+        let len = u16::from_le_bytes([rest[2], rest[3]]) as usize;
+        if rest.len() < 4 + len {
+            break;
+        }
+        if kind != 0x0001 {
+            out.extend_from_slice(&rest[..4 + len]);
+        }
+        rest = &rest[4 + len..];
+    }
+    out.extend_from_slice(rest);
+    out
 }
 
 fn write_local_file_header<T: Write>(writer: &mut T, file: &ZipFileData) -> ZipResult<()> {
